@@ -309,7 +309,13 @@ pub fn enc_sub(rng: &mut Rng, c: &Corpus) -> EncSub {
 pub fn adversarial(rng: &mut Rng, c: &Corpus) -> Circuit {
     let mut ops = Vec::new();
     let n = rng.range(1, 6);
-    let m = |rng: &mut Rng| if rng.chance(1, 4) { Mode::Input } else { Mode::Witness };
+    // constants too (one in eight): "an invalid encoding is never decoded in-circuit" has no exception for
+    // circuit parameters, and a failed use of one must not leave anything usable behind
+    let m = |rng: &mut Rng| match rng.below(8) {
+        0 | 1 => Mode::Input,
+        2 => Mode::Constant,
+        _ => Mode::Witness,
+    };
     for _ in 0..n {
         match rng.below(12) {
             0 | 1 | 2 => {
@@ -320,6 +326,12 @@ pub fn adversarial(rng: &mut Rng, c: &Corpus) -> Circuit {
                     ops.push(R1Op::Decompress(ix(rng)));
                 } else {
                     ops.push(R1Op::AllocFq { mode: m(rng), s });
+                    if rng.chance(1, 4) {
+                        // a use that may fail, then a retry on the same variable
+                        let i = ix(rng);
+                        ops.push(R1Op::Value(i));
+                        ops.push(R1Op::Value(i));
+                    }
                     ops.push(match rng.below(5) {
                         0 => R1Op::Value(ix(rng)),
                         1 => R1Op::Negate(ix(rng)),
@@ -330,7 +342,8 @@ pub fn adversarial(rng: &mut Rng, c: &Corpus) -> Circuit {
                 }
             }
             3 | 4 => {
-                ops.push(R1Op::WitnessOffer { offer: offer(rng, c) });
+                let o = offer(rng, c);
+                ops.push(if rng.chance(1, 3) { R1Op::WitnessOfferAffine { offer: o } } else { R1Op::WitnessOffer { offer: o } });
                 if rng.chance(1, 2) {
                     ops.push(R1Op::Compress(ix(rng)));
                 }
